@@ -53,6 +53,7 @@ def main():
     cases = []
     SEG = ['a', 'b', 'c', 'index.html', 'x:y', '12:30', '%41:b', '_b:x', '%2E%2E', '%2e', '.%2E', 'é']   # percent-encoded dots are ordinary segments
     n = 100000 if thorough else 4000
+    RESPELL = {'h': '%68', 'example.org': 'ex%61mple.org', 'u@h:80': '%75@%68:80'}    # authorities that are == but not literally equal
     for fam in ('uri', 'iri'):
         g = Gen(random.Random(rnd.random()), fam)
         for i in range(n // 2):
@@ -70,7 +71,7 @@ def main():
                 if g.r.random() < 0.06: p = ''
                 if au is None and p == '' : p = '/'
                 q = g.pick([None, None, 'q', '', 'a:b', 'x=1:2/3?4']) ; f = g.pick([None, None, 'f', 'sec:1', 'a/b:c?d'])   # delimiters that are legal inside query / fragment
-                return {'scheme': sch if g.r.random() < 0.95 else 'other', 'authority': au if g.r.random() < 0.92 else g.pick([None, 'k']), 'path': p, 'query': q, 'fragment': f}
+                return {'scheme': sch if g.r.random() < 0.95 else 'other', 'authority': (au if g.r.random() < 0.85 else RESPELL.get(au, au)) if g.r.random() < 0.92 else g.pick([None, 'k']), 'path': p, 'query': q, 'fragment': f}
             shared = [g.pick(SEG[:3]) for _ in range(g.pick([0, 1, 2, 3]))]
             pa, pb = mk(shared), mk(shared)
             for p in (pa, pb):
